@@ -297,7 +297,7 @@ func cmdRandom(args []string) {
 	bw.Flush()
 	w.Close()
 	sum := map[string]interface{}{"events": len(r.Events), "blocks": len(r.Blocks) - 1, "entries": r.NumEntries(), "problems": r.Problems, "backend": *backend, "trimspend_realised": realised, "lockup_records": len(r.Prev.Lockups), "adversarial_qi_txs_offered": r.Adversarial, "failing_evm_txs_offered": r.FailingTxs, "lockup_entries_seen": r.LockupEntries(),
-		"reexecutions": r.Reexecs, "follower_checks": r.FollowerChecks, "fresh_replays": r.FreshReplays, "index_checks": r.IndexChecks, "chained_blocks": r.Chained, "slot_calls": r.SlotCalls, "slot_state": slotState, "dom_canon_checks": r.DomCanonChecks, "sibling_conversion_checks": r.SiblingConvChecks, "double_spend_blocks_refused": r.DoubleSpendRefused}
+		"reexecutions": r.Reexecs, "follower_checks": r.FollowerChecks, "fresh_replays": r.FreshReplays, "index_checks": r.IndexChecks, "chained_blocks": r.Chained, "slot_calls": r.SlotCalls, "slot_state": slotState, "dom_canon_checks": r.DomCanonChecks, "receipt_etx_checks": r.ReceiptEtxChecks, "sibling_conversion_checks": r.SiblingConvChecks, "double_spend_blocks_refused": r.DoubleSpendRefused}
 	b, _ := json.Marshal(sum)
 	fmt.Println(string(b))
 }
